@@ -248,26 +248,32 @@ class Oracle:
                 c = ty[1]
         return out
 
-    def lookup_attr(self, target, path, attr, alias_mods):
-        """Outermost applicable modification of `attr` (None = the binding) of the leaf at `path`:
-        (scope prefix, expr) or None.  Outermost level first; inside one level the extends clauses
-        from the derived class down to the declaring one, then the declaration itself; last of all
-        the type definitions (outer alias first)."""
+    def candidates(self, target, path, attr, alias_mods):
+        """All modifications of `attr` (None = the binding) of the leaf at `path`, outermost first:
+        [(scope prefix or None, expr, kind)].  Outermost level first; inside one level the extends
+        clauses from the derived class down to the declaring one, then the declaration itself; last
+        of all the type definitions (outer definition first)."""
+        out = []
         want_tail = () if attr is None else (attr,)
         for (prefix, cpath, (k, decl, chain)) in self.levels(target, path):
             rest = tuple(path[len(prefix):]) + want_tail     # relative to the class at this level
             for mods in chain:
                 hit = [v for p, v in mods if p == rest]
                 if hit:
-                    return (prefix, hit[-1], "ext")
+                    out.append((prefix, hit[-1], "ext"))
             hit = [v for p, v in comp_mods(k) if p == rest[1:]]
             if hit:
-                return (prefix, hit[-1], "decl")
+                out.append((prefix, hit[-1], "decl"))
         for i, mods in enumerate(alias_mods):
             hit = [v for p, v in mods if p == want_tail]
             if hit:
-                return (None, hit[-1], "type%d" % (len(alias_mods) - i))
-        return None
+                out.append((None, hit[-1], "type%d" % (len(alias_mods) - i)))
+        return out
+
+    def lookup_attr(self, target, path, attr, alias_mods):
+        """Outermost applicable modification: the first candidate."""
+        c = self.candidates(target, path, attr, alias_mods)
+        return c[0] if c else None
 
     def check_targets(self, target):
         """Every modification written anywhere in the instance tree must name an attribute or the
@@ -333,7 +339,10 @@ class Oracle:
         vars_ = {}
         value_eqs = []
         bindings = []
+        self.max_candidates = 0
         for (_, path, k, b, dims, alias_mods) in leaves:
+            for a in ATTRS + (None,):
+                self.max_candidates = max(self.max_candidates, len(self.candidates(target, path, a, alias_mods)))
             pre = [p for p in k["prefixes"] if len(path) == 1 or p not in ("input", "output")]
             attrs = {}
             for a in ATTRS:
@@ -697,7 +706,7 @@ class Gen:
         # extends
         inherited = set()
         avail = [d for d in self.done if d != me]
-        for _ in range(rng.choice([0, 0, 1, 1, 1, 2])):
+        for _ in range(rng.choice([0, 0, 1, 1, 1, 2, 2, 3])):
             if not avail:
                 break
             b = rng.choice(avail)
